@@ -87,6 +87,42 @@ def lck4(P, R, L):
             R.analysed(c.body)
 
 
+def lck4b(P, R, L):
+    R.clause("LCK-4b", "every loop that waits on the background-work condvar for a condition only the worker can establish (flush done, "
+             "manual compaction done) also leaves when the sticky background error is set — the worker stops working then")
+    for fn in ("db::DB::force_memtable_compaction", "db::DB::force_level_compaction"):
+        b = P.body(fn)
+        if b is None:
+            R.missing_anchor("LCK-4b", fn)
+            continue
+        R.analysed(b)
+        waits = [c for c in b.calls() if is_wait(c) and not b.is_cleanup(c.bb)]
+        reads = field_reads(b, "maybe_bad_database_state")
+        ok = bool(waits)
+        det = []
+        for w in waits:
+            cyc = {x for x in b.reachable(w.bb) if w.bb in b.reachable(x)}
+            # a test of the sticky error inside the wait cycle with an edge that leaves the cycle
+            good = False
+            for x in cyc & set(reads):
+                # find the switch fed by this read: any switch block in the cycle reachable from x before the wait with an exit edge
+                for y in cyc:
+                    t = b.term(y)
+                    if t["k"] == "switch" and y in b.reachable(x) and any(tg not in cyc for _, tg in b.edges(y)):
+                        from ..dataflow import origins as _o
+                        for o in _o(b, t["discr"]):
+                            if "maybe_bad_database_state" in o.path:
+                                good = True
+                            if o.kind == "call" and o.site is not None and o.site.args and any(
+                                    "maybe_bad_database_state" in a.path for a in _o(b, o.site.args[0])):
+                                good = True
+            if not good:
+                ok = False
+                det.append("the wait at line %s is in a loop that does not leave on maybe_bad_database_state" % w.line)
+        R.check("LCK-4b", fn + "|wait-loop-leaves-on-sticky-error", ok, "%s:%d" % (b.file, b.line_lo),
+                "the wait loop has an exit edge controlled by maybe_bad_database_state", "; ".join(det))
+
+
 def ord10(P, R, L):
     R.clause("ORD-10", "in CompactionWorker::compaction_task every path to return stores "
              "background_compaction_scheduled=false and afterwards calls notify_all on the background-work condvar; "
@@ -312,6 +348,7 @@ def ord12(P, R, L):
 def run(P, R, L):
     lck3(P, R, L)
     lck4(P, R, L)
+    lck4b(P, R, L)
     ord10(P, R, L)
     pair4(P, R, L)
     ord11(P, R, L)
@@ -327,6 +364,9 @@ def run(P, R, L):
     K.lck6_manual_config_lock_order(P, R, L)
     R.clause("ORD-17", "a manual compaction request observed by a worker run is always consumed (done written, slot cleared)")
     K.ord17_manual_slot(P, R, L)
+    R.clause("GRD-14", "the size-bounded input list of a manual compaction keeps at least one file (an empty list trips "
+             "`assert!(!files.is_empty())` on the compaction thread, which then never clears the scheduled flag)")
+    K.grd14_manual_inputs(P, R, L, parts=("nonempty",))
     R.not_decided += ["that the background thread never panics (value-level reachability of unwrap/assert/index sites)",
                       "progress of data-dependent loops", "channel capacity / blocking send in schedule_task"]
     R.assumptions += ["one Mutex<GuardedDbFields> instance per database (class-level = instance-level)",
